@@ -173,20 +173,47 @@ func runC07(c *Ctx) {
 	}
 	r.Floor("R07.2", "refusing branches", nref, 7)
 
-	// R07.3
+	// R07.3: the function that writes the array: RenderTo itself, or the helper it hands the writer to once the
+	// validation is done (its per-row emit calls sit in a loop)
 	var emit *ssa.Function
+	body := fn
+	hasRowLoop := func(f *ssa.Function) bool {
+		found := false
+		eachInstr(f, func(in ssa.Instruction) {
+			if loopDepth(in.Block()) > 0 && emitCallee(in, pkgPath("json"), f) != nil {
+				found = true
+			}
+		})
+		return found
+	}
+	if !hasRowLoop(fn) {
+		for _, h := range pkgReach(fn, 1)[1:] {
+			takesWriter := false
+			for _, par := range h.Params {
+				if isIOWriter(par.Type()) {
+					takesWriter = true
+				}
+			}
+			if takesWriter && hasRowLoop(h) {
+				body = h
+			}
+		}
+	}
 	isEmit := func(in ssa.Instruction) bool {
-		if f := emitCallee(in, pkgPath("json"), fn); f != nil {
+		if f := emitCallee(in, pkgPath("json"), body); f != nil {
 			emit = f
 			return true
 		}
 		return false
 	}
-	separatorsSkipped(c, "R07.3", fn, isEmit)
+	if body != fn {
+		sites = allWriteSites(body)
+	}
+	separatorsSkipped(c, "R07.3", body, isEmit)
 	importCellText(c, "R07.4", true)
 	importWriteDiscipline(c, "R07.2", "json")
-	rowsInOrder(c, "R07.3", fn, isEmit)
-	wv := writerValues(fn)
+	rowsInOrder(c, "R07.3", body, isEmit)
+	wv := writerValues(body)
 	ncomma := 0
 	for _, s := range sites {
 		in := s.Call.(ssa.Instruction)
@@ -203,8 +230,8 @@ func runC07(c *Ctx) {
 			continue
 		}
 		ncomma++
-		ok, why := objectFollows(fn, in, isEmit)
-		r.Check("R07.3", FuncName(fn), s.Desc+" may write a comma: an object follows on every path", in.Pos(), ok, why)
+		ok, why := objectFollows(body, in, isEmit)
+		r.Check("R07.3", FuncName(body), s.Desc+" may write a comma: an object follows on every path", in.Pos(), ok, why)
 	}
 	r.Floor("R07.3", "array-level writes that may contain a comma", ncomma, 1)
 	// brackets: first write "[", last "]"
@@ -226,7 +253,7 @@ func runC07(c *Ctx) {
 				}
 			}
 		}
-		r.Check("R07.3", FuncName(fn), "the array is opened first and closed last", fn.Pos(), strings.HasPrefix(strings.TrimSpace(first), "[") && strings.HasPrefix(strings.TrimSpace(last), "]"), fmt.Sprintf("first %q, last %q", first, last))
+		r.Check("R07.3", FuncName(body), "the array is opened first and closed last", body.Pos(), strings.HasPrefix(strings.TrimSpace(first), "[") && strings.HasPrefix(strings.TrimSpace(last), "]"), fmt.Sprintf("first %q, last %q", first, last))
 	}
 	if emit != nil {
 		c07Object(c, emit)
@@ -591,6 +618,24 @@ func boolAssertOKResult(f *ssa.Function, idx int, depth int) bool {
 		for _, v := range phiClosure(rv[idx]) {
 			if k, ok := constBool(v); ok && k {
 				continue
+			}
+			// constant false on a path where an assertion to bool has failed (type-switch form)
+			if k, ok := constBool(v); ok && !k {
+				failed := false
+				for _, cf := range dominatingConds(ret.Block()) {
+					if ex2, isEx := cf.Cond.(*ssa.Extract); isEx && ex2.Index == 1 && !cf.Val {
+						if ta, isTA := ex2.Tuple.(*ssa.TypeAssert); isTA {
+							if b, isB := ta.AssertedType.Underlying().(*types.Basic); isB && b.Kind() == types.Bool {
+								failed = true
+							}
+						}
+					}
+				}
+				if failed {
+					some = true
+					continue
+				}
+				return false
 			}
 			ex, ok := v.(*ssa.Extract)
 			if !ok || ex.Index != 1 {
